@@ -2,6 +2,7 @@
 #include "myth/myth.h"
 #include "myth_config.h"
 #include "myth_thread.h"
+#include "myth_worker.h"
 
 void mythv_poison_desc(void * p) {
   struct myth_thread * th = p;
@@ -19,4 +20,8 @@ int mythv_desc_status(void * p) {
 int mythv_desc_detached(void * p) {
   struct myth_thread * th = p;
   return th->detached;
+}
+
+void * mythv_cur_thread(int rank) {
+  return g_envs[rank].this_thread;
 }
